@@ -465,6 +465,10 @@ class Gen(object):
     if tabs:
       t = r.choice(tabs)
       choices.append(['AddColumn', t, self.fresh("bad"), {'type': 'Integer', 'isFormula': False, 'formula': ''}])
+      if view.all_cols(t):
+        c = r.choice(view.all_cols(t))
+        choices.append(['ModifyColumn', t, c, {'type': 'Foo'}])
+        choices.append(['ModifyColumn', t, c, {'isFormula': True, 'formula': 'global rec\nrec'}])
       cols = view.all_cols(t)
       if cols:
         choices.append(['RenameColumn', t, cols[0], cols[-1] if len(cols) > 1 else 'id'])
